@@ -44,7 +44,7 @@ def main():
 
         def demo():
             shutil.copy(demo_src, demo_dst)
-            rc, out = sh("go test -vet=off -count=1 -run '%s' %s" % (runre, pkg), cwd=wt, timeout=900)
+            rc, out = sh("go test %s -vet=off -count=1 -run '%s' %s" % (os.environ.get("SEED_TEST_FLAGS", ""), runre, pkg), cwd=wt, timeout=900)
             os.remove(demo_dst)
             return rc, out
 
